@@ -624,7 +624,7 @@ func (a *analysis) output() (string, string, error) {
 	b.WriteString("   guarded_calls : every call site of a function named *Locked or deliverMessage with the lock its\n")
 	b.WriteString("                  receiver type is guarded by, and whether that lock is held at the site on EVERY\n")
 	b.WriteString("                  path and in EVERY call context (GMust), on some (GMayOnly) or on none (GNo). *)\n")
-	b.WriteString("From Coq Require Import String List.\nImport ListNotations.\nOpen Scope string_scope.\n\n")
+	b.WriteString("From Coq Require Import String List.\nImport ListNotations.\nLocal Open Scope string_scope.\n\n")
 
 	classes := a.classes.keys()
 	var items []string
